@@ -340,6 +340,7 @@ def run_property(modname, tier, seed, jobs=None):
         unknown_branches=agg.get("unknown_branch", 0) + agg.get("unknown_pc", 0),
         int_out_of_range=agg.get("int_out_of_range", 0),
         fidelity_cells_ill_conditioned_skipped=agg.get("fidelity_cells_ill_conditioned", 0),
+        fidelity_skipped_no_interior_witness=agg.get("fidelity_skipped_no_interior_witness", 0),
         discharged_by_rewriting=agg.get("discharged_by_rewriting", 0), boundary_only_candidates_dropped=agg.get("boundary_only", 0),
         non_exhaustive_instances=[f"{r['task']['harness']} {json.dumps(r['task']['params'], default=str)[:100]}"
                                   for r in sym_results if not r["exhaustive"]][:20],
